@@ -71,7 +71,7 @@ fn check_main(a: &Args) -> i32 {
     a2.map.insert("replay-dir".into(), replay_dir);
     let evidence = PathBuf::from(a.get("evidence", verif.join("evidence/C16.json").to_str().unwrap()));
     let shards = a.u64("shards", 16);
-    let runs = a.u64("runs", if tier == "thorough" { 30000 } else { 1000 });
+    let runs = a.u64("runs", if tier == "thorough" { 30000 } else { 1500 });
     println!("VERIF_SEED={seed} tier={tier} runs={runs} shards={shards}");
 
     let t0 = seams::real_now_s();
